@@ -363,74 +363,7 @@ func ruleC11(c *Ctx) {
 	c.rule("C11-R3", "key-source decision tables, role encryption: the key that decrypts (getDecryptCert) and the certificate reported / published (GetEncryptionCertBytes, metadata) pick the same source for all 16 field/setter configurations")
 	c.rule("C11-R4", "layer arithmetic: GCM nonce = data[:n], body = data[n:] with the same n = NonceSize(); CBC IV = data[:b], body = data[b:] with the same b = BlockSize(); padding removal returns body[:len(body)-int(body[len(body)-1])]; detached EncryptedKey used exactly when the inline one has no CipherValue")
 	// R1
-	adv := map[string]map[string]bool{}
-	for _, fn := range []string{"(*SAMLServiceProvider).Metadata", "(*SAMLServiceProvider).MetadataWithSLO"} {
-		r := c.kernel(fn, "*")
-		if r == nil {
-			continue
-		}
-		set := map[string]bool{}
-		for _, t := range r.Terms {
-			for _, e := range t.stores() {
-				if fa, ok := e.Addr.(*FieldAddrV); ok && fa.Name == "Algorithm" && typeStr(fa.Owner) == "types.EncryptionMethod" {
-					if s, ok := constString(e.Val); ok {
-						set[s] = true
-					} else {
-						c.bad("C11-R1", shortFn(r.Root), "advertised algorithm is a constant", c.P.InstrPos(e.Instr), "non-constant EncryptionMethod algorithm "+ap(e.Val))
-					}
-				}
-			}
-		}
-		adv[shortFn(r.Root)] = set
-	}
-	db := c.kernel("types.(*EncryptedAssertion).DecryptBytes", "*", "-types.(*EncryptedKey).DecryptSymmetricKey")
-	handled := map[string]bool{}
-	if db != nil {
-		// a case is "handled" if some path with that equality fact reaches a cipher construction (NewGCM / NewCBCDecrypter)
-		for _, t := range db.Terms {
-			reaches := false
-			for _, e := range t.St.events {
-				if e.Kind == EvCall && (e.Callee == "crypto/cipher.NewGCM" || e.Callee == "crypto/cipher.NewCBCDecrypter") {
-					reaches = true
-				}
-			}
-			if !reaches {
-				continue
-			}
-			for _, f := range t.St.facts {
-				if b, ok := f.Cond.(*BinV); ok && f.Pol && b.Op == token.EQL && ap(b.X) == "EA.EncryptionMethod.Algorithm" {
-					if s, ok := constString(b.Y); ok {
-						handled[s] = true
-					}
-				}
-			}
-		}
-	}
-	nAdv := 0
-	for fn, set := range adv {
-		for alg := range set {
-			nAdv++
-			c.check(handled[alg], "C11-R1", fn, "advertised "+alg, "-", "has a decrypting case in DecryptBytes", "metadata advertises "+alg+" but DecryptBytes has no case that decrypts it")
-		}
-	}
-	c.count("C11-R1/advertised", nAdv)
-	c.floor("C11-R1/advertised", 10)
-	c.count("C11-R1/handled", len(handled))
-	c.floor("C11-R1/handled", 5)
-	if a, b := adv["(*SAMLServiceProvider).Metadata"], adv["(*SAMLServiceProvider).MetadataWithSLO"]; a != nil && b != nil {
-		same := len(a) == len(b)
-		for k := range a {
-			if !b[k] {
-				same = false
-			}
-		}
-		c.check(same, "C11-R1", "Metadata / MetadataWithSLO", "same advertised set", "-", fmt.Sprintf("%d methods each", len(a)), fmt.Sprintf("the two metadata functions advertise different encryption methods: %v vs %v", sortedStrings(a), sortedStrings(b)))
-	}
-	// the property's enumerated list must be advertised
-	wantAdv := []string{"http://www.w3.org/2009/xmlenc11#aes128-gcm", "http://www.w3.org/2009/xmlenc11#aes192-gcm", "http://www.w3.org/2009/xmlenc11#aes256-gcm", "http://www.w3.org/2001/04/xmlenc#aes128-cbc", "http://www.w3.org/2001/04/xmlenc#aes256-cbc"}
-	for _, w := range wantAdv {
-		c.check(handled[w], "C11-R1", "(*types.EncryptedAssertion).DecryptBytes", "handles "+w, "-", "decrypting case present", "DecryptBytes no longer decrypts "+w+", which the property lists as advertised")
-	}
+	db := advertisedHandled(c, "C11-R1")
 
 	// R2
 	dk := c.kernel("types.(*EncryptedKey).DecryptSymmetricKey", "*")
@@ -659,6 +592,113 @@ func layerArithmetic(c *Ctx, rule string, db *Result) {
 	c.floor(rule+"/cbc-paths", 1)
 }
 
+// advertisedHandled: every advertised EncryptionMethod has a decrypting case and a matching cipher family.
+func advertisedHandled(c *Ctx, rule string) *Result {
+	// R1
+	adv := map[string]map[string]bool{}
+	for _, fn := range []string{"(*SAMLServiceProvider).Metadata", "(*SAMLServiceProvider).MetadataWithSLO"} {
+		r := c.kernel(fn, "*")
+		if r == nil {
+			continue
+		}
+		set := map[string]bool{}
+		for _, t := range r.Terms {
+			for _, e := range t.stores() {
+				if fa, ok := e.Addr.(*FieldAddrV); ok && fa.Name == "Algorithm" && typeStr(fa.Owner) == "types.EncryptionMethod" {
+					if s, ok := constString(e.Val); ok {
+						set[s] = true
+					} else {
+						c.bad(rule, shortFn(r.Root), "advertised algorithm is a constant", c.P.InstrPos(e.Instr), "non-constant EncryptionMethod algorithm "+ap(e.Val))
+					}
+				}
+			}
+		}
+		adv[shortFn(r.Root)] = set
+	}
+	db := c.kernel("types.(*EncryptedAssertion).DecryptBytes", "*", "-types.(*EncryptedKey).DecryptSymmetricKey")
+	handled := map[string]bool{}
+	if db != nil {
+		// a case is "handled" if some path with that equality fact reaches a cipher construction (NewGCM / NewCBCDecrypter)
+		for _, t := range db.Terms {
+			reaches := false
+			for _, e := range t.St.events {
+				if e.Kind == EvCall && (e.Callee == "crypto/cipher.NewGCM" || e.Callee == "crypto/cipher.NewCBCDecrypter") {
+					reaches = true
+				}
+			}
+			if !reaches {
+				continue
+			}
+			for _, f := range t.St.facts {
+				if b, ok := f.Cond.(*BinV); ok && f.Pol && b.Op == token.EQL && ap(b.X) == "EA.EncryptionMethod.Algorithm" {
+					if s, ok := constString(b.Y); ok {
+						handled[s] = true
+					}
+				}
+			}
+		}
+	}
+	// block-cipher families the key unwrap can construct (aes.NewCipher, des.NewTripleDESCipher, ...)
+	families := map[string]bool{}
+	if dk0 := c.kernel("types.(*EncryptedKey).DecryptSymmetricKey", "*"); dk0 != nil {
+		for _, t := range dk0.Terms {
+			if !t.accepting(dk0.Root) {
+				continue
+			}
+			if cv, ok := stripIface(t.Vals[0]).(*CallV); ok {
+				switch cv.Callee {
+				case "crypto/aes.NewCipher":
+					families["aes"] = true
+				case "crypto/des.NewTripleDESCipher":
+					families["tripledes"] = true
+				case "crypto/des.NewCipher":
+					families["des"] = true
+				default:
+					families[cv.Callee] = true
+				}
+			}
+		}
+	}
+	familyOf := func(alg string) string {
+		switch {
+		case strings.Contains(alg, "#aes"):
+			return "aes"
+		case strings.Contains(alg, "tripledes"):
+			return "tripledes"
+		}
+		return "?"
+	}
+	nAdv := 0
+	for fn, set := range adv {
+		for alg := range set {
+			nAdv++
+			c.check(handled[alg], rule, fn, "advertised "+alg, "-", "has a decrypting case in DecryptBytes", "metadata advertises "+alg+" but DecryptBytes has no case that decrypts it")
+			c.check(families[familyOf(alg)], rule, fn, "advertised "+alg+": the key unwrap builds a "+familyOf(alg)+" cipher", "-", "DecryptSymmetricKey constructs "+familyOf(alg),
+				"metadata advertises "+alg+" but DecryptSymmetricKey never constructs a "+familyOf(alg)+" block cipher (constructs: "+strings.Join(sortedStrings(families), ", ")+"): the session key is used with the wrong cipher")
+		}
+	}
+	c.count(rule+"/advertised", nAdv)
+	c.floor(rule+"/advertised", 10)
+	c.count(rule+"/handled", len(handled))
+	c.floor(rule+"/handled", 5)
+	if a, b := adv["(*SAMLServiceProvider).Metadata"], adv["(*SAMLServiceProvider).MetadataWithSLO"]; a != nil && b != nil {
+		same := len(a) == len(b)
+		for k := range a {
+			if !b[k] {
+				same = false
+			}
+		}
+		c.check(same, rule, "Metadata / MetadataWithSLO", "same advertised set", "-", fmt.Sprintf("%d methods each", len(a)), fmt.Sprintf("the two metadata functions advertise different encryption methods: %v vs %v", sortedStrings(a), sortedStrings(b)))
+	}
+	// the property's enumerated list must be advertised
+	wantAdv := []string{"http://www.w3.org/2009/xmlenc11#aes128-gcm", "http://www.w3.org/2009/xmlenc11#aes192-gcm", "http://www.w3.org/2009/xmlenc11#aes256-gcm", "http://www.w3.org/2001/04/xmlenc#aes128-cbc", "http://www.w3.org/2001/04/xmlenc#aes256-cbc"}
+	for _, w := range wantAdv {
+		c.check(handled[w], rule, "(*types.EncryptedAssertion).DecryptBytes", "handles "+w, "-", "decrypting case present", "DecryptBytes no longer decrypts "+w+", which the property lists as advertised")
+	}
+
+	return db
+}
+
 // ---------------------------------------------------------------- C19
 
 func ruleC19(c *Ctx) {
@@ -738,6 +778,7 @@ func ruleC19(c *Ctx) {
 		c.count("C19-R1/accepting "+fname, n)
 		c.floor("C19-R1/accepting "+fname, 1)
 	}
+	advertisedHandled(c, "C19-R2/methods")
 	tableAgreement(c, "C19-R2/signing", signingSelectors(c), 4)
 	tableAgreement(c, "C19-R2/encryption", encryptionSelectors(c), 4)
 }
